@@ -27,20 +27,20 @@ def run(report, tier):
         Harness(name="tables/blocks", module="harness.c01", body="body_blocks", sig="sel: int", n_sel=H.N_BLOCKS,
                 claim="one table per distinct mother, file order, first block kept, empty block = table without lines; every line once",
                 bounds="every sequence of 0..5 Decay blocks over 3 mother names x 3 interleavings with other statements; 0..2 lines per block",
-                functions=PARSE_FUNCS, timeout=t, sample={"blocks": ["B0", "K~0", "B0"], "between": "Define/Alias"}),
+                functions=PARSE_FUNCS, timeout=t, concrete_body=True, sample={"blocks": ["B0", "K~0", "B0"], "between": "Define/Alias"}),
         Harness(name="tables/lines", module="harness.c01", body="body_lines", sig="sel: int", n_sel=H.N_LINES,
                 claim="each line reported once in file order with bf = float(literal), daughters verbatim, PHOTOS flag, model",
                 bounds="one block with 0..5 lines; 12 numeric literal forms as bf; 0..3 daughters; PHOTOS on/off; rotating model names",
-                functions=PARSE_FUNCS, timeout=t, sample={"lines": 5, "bf": "20.e12"}),
+                functions=PARSE_FUNCS, timeout=t, concrete_body=True, sample={"lines": 5, "bf": "20.e12"}),
         Harness(name="tables/daughters", module="harness.c01", body="body_daughters", sig="sel: int", n_sel=H.N_DAU,
                 claim="0..n daughters over the whole label alphabet are reported verbatim and in order",
                 bounds="0..5 daughters from a 25-name pool that contains every character of the label alphabet",
-                functions=PARSE_FUNCS, timeout=t, sample={"daughters": ["K~0", "Xi(c).b", "f'_0"]}),
+                functions=PARSE_FUNCS, timeout=t, concrete_body=True, sample={"daughters": ["K~0", "Xi(c).b", "f'_0"]}),
         Harness(name="tables/model", module="harness.c01", body="body_model", sig="sel: int", n_sel=H.N_MODEL,
                 claim="every published model name, with and without PHOTOS, with absent / numeric / word / Define'd / wrapped parameter "
                       "lists is reported verbatim with parameters in order (floats for literals, words verbatim, '' when absent)",
                 bounds=f"{len(H.MODELS)} model names x PHOTOS x 6 parameter-list variants (up to 8 parameters)",
-                functions=PARSE_FUNCS, timeout=t, sample={"model": "SSD_CP", "params": "dm 1.0 -beta undefined_name -dmx"}),
+                functions=PARSE_FUNCS, timeout=t, concrete_body=True, sample={"model": "SSD_CP", "params": "dm 1.0 -beta undefined_name -dmx"}),
     ]
     for h in hs:
         chrun.run_harness(report, h)
